@@ -513,7 +513,7 @@ func runC12(c *core.Ctx) {
 	for fi, fam := range wl.DeepFamilies {
 		for _, n := range wl.BoundarySizes {
 			k++
-			if !c.Mine(k) || fi < wl.FirstLimitFamily && n > 257 {
+			if !c.Mine(k) || fi < wl.FirstLimitFamily && n > 257 || strings.HasSuffix(fam.Name, "-xl") && n != 1025 {
 				continue
 			}
 			one(fam.Gen(n), k)
